@@ -11,6 +11,7 @@ LEAN_MODULES = ['MV.Props.C10']
 LEAN_HELPERS = ['MV.Lemmas.Duration', 'MV.Model.Duration', 'MV.Model.Basic', 'MV.Model.Types']
 DRIVERS = ['C10']
 GEN = ['Tables']
+SRC_TIE = ['SrcDur']   # py2lean source images of Melody/Chord/Score.duration proved equal to the model (MV/Props/TieDurC10.lean)
 RULE = ('one request = one operation (suffix / set_duration / augment / + / * / decompose_duration / duration / '
         'get_onset_times / limit_denominator) on a generated note, melody, chord or score; durations drawn from the 31 table '
         'figures, small fractions, and on purpose from outside the den<=1000 resolution; arguments as int, Fraction and '
@@ -522,6 +523,9 @@ def correspondence(ctx):
     melody_cases(ctx)
     chord_cases(ctx)
     score_cases(ctx)
+    # kernel-level streams of the source tie (DESIGN §9.6)
+    import srctie
+    srctie.run(ctx, SRC_TIE)
 
 
 # ----------------------------------------------------------------------------- the property itself (oracles)
